@@ -54,6 +54,12 @@ DESCR = {
     "C14-m4": ("sill computed from the raw variance", "truncated-power-law model with var_factor != 1", ""),
     "C20-m3": ("normaliser input check writes NaN into the caller's array", "bounded-range normaliser, float64 array with an out-of-range value", "out-of-range data case added after reading the author's summary; a value replaced by NaN was a harness error first, now a reported change"),
     "C20-m4": ("vario_estimate_axis drops copy=True on the masked input", "masked array with a mask and additional NaN / no_data cells", ""),
+    "C06-m3": ("number of chunks by floor division: the trailing partial chunk is never evaluated", "chunk_size that does not divide the number of targets", "C05 chunk_size=2 on 3 targets added after the miss; np.empty now yields arbitrary values, so reading a never-written entry is a reported violation instead of a harness error"),
+    "C06-m4": ("right-hand-side drift functions evaluated at isometrised coordinates for isotropic models", "universal kriging, rotated isotropic model with a custom drift, or lat-lon", "caught by C05 (drift at original coordinates)"),
+    "C08-m3": ("no_data replaced after mean / normalizer / trend (same fault as C09-m1, found independently)", "finite no_data with a value-changing pre-processing option", "caught by C09"),
+    "C08-m4": ("ang2dir multiplies the sines over all directions (axis dropped)", "angles=, 3-D, >= 2 directions, one not horizontal", "C08 ang2dir job added after the miss"),
+    "C09-m3": ("common mask of stacked fields uses any instead of all", ">= 2 masked fields with different masks", "caught by C08 (mixed per-field masks)"),
+    "C09-m4": ("field pre-processing (incl. normaliser fit) moved before the sub-sampling", "fit_normalizer=True with sampling_size below the point count", "C09 obligation 'pre-processing is handed the sub-sample' added after the miss"),
     "C20-m1": ("asarray instead of array before in-place detrending", "check_shape=False path with float input", ""),
     "C20-m2": ("bin edges converted to radians in place", "latlon, caller's float array", ""),
 }
